@@ -534,3 +534,55 @@ Proof.
   - intros dep_repo name ver repos wp ok href cr.
     apply (manager_scope parse url_equal lookup index_url find_in dep_url Hstr Hprov Hdep Hequal).
 Qed.
+
+(* ================================================================== several dependencies *)
+(* Manager.downloadAll builds the option list of every dependency afresh: what is requested,
+   and with which credentials, for one dependency is [manager_dep] of that dependency's own
+   repository, name and version - whatever the dependencies before and after it are. *)
+Section DownloadAll.
+  Variable parse : string -> option url.
+  Variable url_equal : string -> string -> bool.
+  Variable lookup : entry -> string -> string -> option string.
+  Variable index_url : string -> option string.
+  Variable find_in : string -> string -> string -> option string.
+  Variable dep_url : entry -> string -> string -> string -> option string.
+
+  Let dall := download_all parse url_equal lookup index_url find_in dep_url.
+  Let mdep := manager_dep parse url_equal lookup index_url find_in dep_url.
+
+  Definition dep_ok (d : string * string * string * bool) : bool := snd d.
+
+  Lemma download_all_independent pre dr n v ok post repos wp :
+    forallb dep_ok pre = true ->
+    dall (pre ++ (dr, n, v, ok) :: post)%list repos wp =
+    (dall pre repos wp ++ mdep dr n v repos wp ok ++ (if ok then dall post repos wp else []))%list.
+  Proof.
+    unfold dall, mdep. induction pre as [|[[[dr0 n0] v0] ok0] pre IH]; intro H; simpl.
+    - reflexivity.
+    - simpl in H. apply andb_true_iff in H as [H0 H]. unfold dep_ok in H0. simpl in H0. subst ok0.
+      rewrite (IH H). rewrite <- !app_assoc. reflexivity.
+  Qed.
+
+  Lemma download_all_In deps repos wp x :
+    In x (dall deps repos wp) -> exists dr n v ok, In (dr, n, v, ok) deps /\ In x (mdep dr n v repos wp ok).
+  Proof.
+    unfold dall, mdep. induction deps as [|[[[dr n] v] ok] t IH]; simpl; [intros []|].
+    intro H. apply in_app_or in H as [H|H].
+    - exists dr, n, v, ok. auto.
+    - destruct ok; [|destruct H]. destruct (IH H) as (dr' & n' & v' & ok' & Hin & Hx). exists dr', n', v', ok'. auto.
+  Qed.
+
+  Hypothesis Hstr : forall s u, parse s = Some u -> so parse s (u_str u).
+  Hypothesis Hprov : forall s u, parse s = Some u -> nonempty (u_path u) = true -> so parse s (u_str u ++ ".prov").
+  Hypothesis Hdep : forall cr d n v cu u, dep_url cr d n v = Some cu -> parse cu = Some u -> abs3 u = true.
+  Hypothesis Hequal : forall a b ua, url_equal a b = true -> parse a = Some ua -> so parse a b.
+
+  (* hence every request of a dependency update that carries a pair carries a repository
+     entry's own pair within that entry's scope - however many dependencies, in any order *)
+  Lemma download_all_scope deps repos wp href cr :
+    In (href, GReq (Some cr)) (dall deps repos wp) -> repo_cred_ok parse repos cr href.
+  Proof.
+    intro H. apply download_all_In in H as (dr & n & v & ok & _ & H).
+    exact (manager_scope parse url_equal lookup index_url find_in dep_url Hstr Hprov Hdep Hequal _ _ _ _ _ _ _ _ H).
+  Qed.
+End DownloadAll.
